@@ -127,6 +127,34 @@ Check C17_content_once :
       filter (keep own) (items (expand lk d t)) = filter (keep own) (items t).
 Print Assumptions C17_content_once.
 
+(* Size: with notes of at most s nodes and at most r references each, the result has at most
+   bound s r d = s + r * bound s r (d-1) nodes ... *)
+Theorem C17_size_bound :
+  forall lk s r,
+    (forall k doc, lk k = Some doc -> tsize doc <= s /\ nrefs doc <= r) ->
+    forall d t, tsize t <= s -> nrefs t <= r -> tsize (expand lk d t) <= bound s r d.
+Proof. exact size_bound. Qed.
+
+Check C17_size_bound :
+  forall lk s r,
+    (forall k doc, lk k = Some doc -> tsize doc <= s /\ nrefs doc <= r) ->
+    forall d t, tsize t <= s -> nrefs t <= r -> tsize (expand lk d t) <= bound s r d.
+Print Assumptions C17_size_bound.
+
+(* ... which is at most s * (r+1)^d, and exactly s * (d+1) when r = 1 (chains, rings and
+   single self-loops: why depth 255 is feasible there) *)
+Theorem C17_bound_pow : forall s r d, bound s r d <= s * (r + 1) ^ d.
+Proof. exact bound_pow. Qed.
+
+Check C17_bound_pow : forall s r d, bound s r d <= s * (r + 1) ^ d.
+Print Assumptions C17_bound_pow.
+
+Theorem C17_bound_linear : forall s d, bound s 1 d = s * (d + 1).
+Proof. exact bound_linear. Qed.
+
+Check C17_bound_linear : forall s d, bound s 1 d = s * (d + 1).
+Print Assumptions C17_bound_linear.
+
 (* the hypotheses are satisfiable by a non-trivial instance: two notes that reference each
    other (a cycle), built by the model of `import` from reader blocks, squashed at depth 3 *)
 Definition ex_notes : list (string * option string * list dblock) :=
